@@ -8,7 +8,7 @@ f,a,b=sys.argv[1:4]
 s=open(f).read()
 n=len(re.findall(a,s,re.S))
 if n!=1: print("pattern matches",n,"times"); sys.exit(3)
-open(f,'w').write(re.sub(a,lambda m:b,s,count=1,flags=re.S))
+open(f,"w").write(re.sub(a,lambda m:m.expand(b) if "\\1" in b else b,s,count=1,flags=re.S))
 PY
 rc=$?
 if [ $rc -ne 0 ]; then git checkout -- .; exit $rc; fi
